@@ -133,7 +133,13 @@ func (user *userImpl) canSeeCollectionChannelSince(scope, collection, channel st
 		seq, err := role.canSeeCollectionChannelSince(scope, collection, channel)
 		if err != nil {
 			return 0, err
-		} else if seq > 0 && (seq < minSeq || minSeq == 0) {
+		}
+		// A channel inherited from a role is visible from the later of the role getting the channel and the user
+		// getting the role, as in InheritedCollectionChannels
+		if roleSince := user.RoleNames()[role.Name()].Sequence; seq > 0 && seq < roleSince {
+			seq = roleSince
+		}
+		if seq > 0 && (seq < minSeq || minSeq == 0) {
 			minSeq = seq
 		}
 	}
